@@ -1649,12 +1649,14 @@ func evalRace(a vh.Args, res *vh.Result, cases []raceCase, procs []int) {
 						ok = true
 					}
 				}
-				if !ok && reported < 3 {
+				if g == "timeout" {
+					timeouts++
+				}
+				if !ok && (reported < 3 || g == "timeout" && timeouts == 1) {
 					reported++
 					key := "race-result-not-allowed"
 					if g == "timeout" {
 						key = "deadlock"
-						timeouts++
 					}
 					res.Mismatch(vh.Mismatch{ID: fmt.Sprintf("race-%d-%d", p, i), Kind: "corr", Key: key,
 						Detail:   fmt.Sprintf("GOMAXPROCS=%d: r%d returned %s; the model allows %v", p, rid, g, allowed[fmt.Sprintf("r%d", rid)]),
